@@ -157,6 +157,14 @@ def run(ctx, R):
             R.ob('R10.3', '%s:param-%s@%s' % (f.qbase, p, func.qbase), ok,
                  'the increment flag is bound to matches(min_version=(1, 19))',
                  desc, func=func, node=node)
+    if not conditional:
+        # the flag-conditioned increment of the aggregate mutator is gone:
+        # a violation of R10.1/R10.3, not a lost anchor
+        R.ob('R10.3', '_set_aggregates:conditional-increment', False,
+             'the aggregate mutator bumps the generation under the flag its '
+             'callers bind to matches(min_version=(1, 19))',
+             'no mutator increments under a parameter flag any more')
+        n3 = 1
     R.count('R10.3', n3, 1)
 
     # ---- R10.2 -------------------------------------------------------------
